@@ -877,5 +877,56 @@ def rule_r9(ctx) -> RuleResult:
     return rr
 
 
+def rule_r10(ctx) -> RuleResult:
+    """`{{urlencode:x|WIKI}}`, `localurl` and the `...PAGENAMEE` functions return what `wikiurlencode` returns, and the documented
+    value escapes every reserved character except `/` and `:`.  So every return of that helper is a `quote(<text>, safe=S)`
+    with S made of `/` and `:` only, possibly several concatenated -- but never with a literal reserved character spliced in
+    between (seed C18-9B: the text split at `#`, the halves quoted, and a bare `"#"` put back "to keep section links
+    working": `{{urlencode:a#|WIKI}}` returns `a#` instead of `a%23`)."""
+    rr = RuleResult("C18.R10", "wikiurlencode returns only quoted text (safe characters `/` and `:`)", min_instances=1)
+    dotted = "parserfns.wikiurlencode"
+    fn = ctx.fn(dotted)
+    rets = [r for r in walk_no_nested(fn) if isinstance(r, ast.Return) and r.value is not None]
+    if not rets:
+        raise AnalysisError("wikiurlencode: no return found")
+    unreserved = set("ABCDEFGHIJKLMNOPQRSTUVWXYZabcdefghijklmnopqrstuvwxyz0123456789_.-~/:%")
+
+    def pieces(e):
+        if isinstance(e, ast.BinOp) and isinstance(e.op, ast.Add):
+            return pieces(e.left) + pieces(e.right)
+        return [e]
+
+    for r in rets:
+        for pc in pieces(r.value):
+            if isinstance(pc, ast.Call) and unparse(pc.func).split(".")[-1] in ("quote", "quote_plus"):
+                safe = next((k.value for k in pc.keywords if k.arg == "safe"), pc.args[1] if len(pc.args) > 1 else None)
+                sv = safe.value if isinstance(safe, ast.Constant) and isinstance(safe.value, str) else ("/" if safe is None else None)
+                if sv is None:
+                    raise AnalysisError("wikiurlencode: `safe` of {} is not a constant".format(unparse(pc)[:40]))
+                extra = set(sv) - set("/:")
+                if extra:
+                    rr.bad(Finding("C18.R10", PFN, dotted, unparse(pc)[:60],
+                                   "reserved characters {} are left unescaped by safe={!r}".format(sorted(extra), sv), pc.lineno))
+                else:
+                    rr.ok(dotted, "quote(..., safe={!r})".format(sv))
+            elif isinstance(pc, ast.Constant) and isinstance(pc.value, str):
+                bad = set(pc.value) - unreserved
+                if bad:
+                    rr.bad(Finding("C18.R10", PFN, dotted, "literal {!r} in the returned value".format(pc.value),
+                                   "the reserved character(s) {} are spliced into the result unescaped: `{{{{urlencode:a{}|WIKI}}}}` must "
+                                   "percent-encode them".format(sorted(bad), sorted(bad)[0]), pc.lineno))
+                else:
+                    rr.ok(dotted, "literal {!r} (unreserved)".format(pc.value))
+            elif isinstance(pc, ast.Name):
+                defs = [n.value for n in walk_no_nested(fn) if isinstance(n, ast.Assign) and len(n.targets) == 1 and unparse(n.targets[0]) == pc.id]
+                if defs and all(isinstance(d_, ast.Call) and unparse(d_.func).split(".")[-1] in ("quote", "quote_plus") for d_ in defs):
+                    rr.ok(dotted, "`{}` holds quoted text".format(pc.id))
+                else:
+                    raise AnalysisError("wikiurlencode: returned piece `{}` not recognised".format(pc.id))
+            else:
+                raise AnalysisError("wikiurlencode: returned piece `{}` not recognised".format(unparse(pc)[:40]))
+    return rr
+
+
 def run(ctx) -> list:
-    return [rule_r1(ctx), rule_r2(ctx), rule_r3(ctx), rule_r4(ctx), rule_r5(ctx), rule_r6(ctx), rule_r7(ctx), rule_r8(ctx), rule_r9(ctx)]
+    return [rule_r1(ctx), rule_r2(ctx), rule_r3(ctx), rule_r4(ctx), rule_r5(ctx), rule_r6(ctx), rule_r7(ctx), rule_r8(ctx), rule_r9(ctx), rule_r10(ctx)]
